@@ -2,6 +2,7 @@ package main
 
 import (
 	"fmt"
+	"sync/atomic"
 	"time"
 
 	"github.com/ja7ad/otp"
@@ -19,11 +20,22 @@ type result struct {
 var callTimeout = 5 * time.Second
 var workLimit = 64 // HMAC constructions after which a call is aborted (hook mode only)
 
+// A call that does not return is abandoned after callTimeout, but its goroutine keeps running. A change that makes
+// a whole class of calls hang would cost callTimeout per event and ever more CPU: after maxHangs such calls in one
+// process the rest of the scenario is skipped (the recorded hangs are what the trace is judged on).
+const maxHangs = 12
+
+var hangs atomic.Int32
+
 // invoke runs fn under recover with a watchdog and fills the reply part of the event.
 func invoke(e *Event, fn func() result) { invokeOn(e, nil, nil, fn) }
 
 // invokeOn additionally runs before/after on the goroutine that executes the call.
 func invokeOn(e *Event, before, after func(), fn func() result) {
+	if hangs.Load() >= maxHangs {
+		e.Kind = "skipped" // circuit breaker: see maxHangs
+		return
+	}
 	if freshMode && e.Scn != "probe" && !freshRe.MatchString(e.Scn) {
 		e.Kind = "skipped" // fresh pass: only the history-sensitive sequences touch the library (see main.go)
 		return
@@ -59,6 +71,7 @@ func invokeOn(e *Event, before, after func(), fn func() result) {
 	select {
 	case o = <-ch:
 	case <-time.After(callTimeout):
+		hangs.Add(1)
 		e.Kind = "hang"
 		e.Mac, e.MacN = obsEnd()
 		e.Err = S(fmt.Sprintf("no return within %v", callTimeout))
